@@ -469,6 +469,55 @@ pub fn crowded_and_losing(w: &Worker, thorough: bool, idx: &mut usize, judge: &d
             judge(w, &c, p, &pos, &out, "max-depth");
         }
     }
+    // limits other than depth on positions whose whole tree is exhausted long before the limit:
+    // the search runs out of depth (255 iterations) and must answer then, not when the limit expires
+    for p in spos::DEEP.iter() {
+        for l in [
+            Limits { movetime: Some(3_600_000), ..Default::default() },
+            Limits { nodes: Some(1_000_000_000_000), ..Default::default() },
+            Limits { wtime: Some(72_000_000), btime: Some(72_000_000), ..Default::default() },
+        ] {
+            *idx += 1;
+            if !w.mine(*idx) {
+                continue;
+            }
+            let Ok((board, pos, _)) = searchrun::open(p.fen, &spos::hist(p)) else { continue };
+            let c = case_for(p, &l, Cut::ClockNever);
+            let out = searchrun::run_within(&board, &c, &fresh, std::time::Duration::from_secs(60));
+            w.count("searches_that_run_out_of_depth_before_their_limit", 1);
+            judge(w, &c, p, &pos, &out, "depth-exhausted");
+        }
+    }
+    // child first, then its parent: 'go depth 1..3' on every position one ply below P, then
+    // 'go depth 1..2' on P itself with the cache kept (the parent finds its child's ROOT entry,
+    // scores at the very ends of the range included)
+    for p in P9.iter().take(if thorough { 16 } else { 6 }).chain(spos::LOSING.iter()) {
+        *idx += 1;
+        if !w.mine(*idx) {
+            continue;
+        }
+        let Ok((pboard, ppos, _)) = searchrun::open(p.fen, &spos::hist(p)) else { continue };
+        for m in ppos.legal_moves() {
+            let mut h = spos::hist(p);
+            h.push(m.uci());
+            let Ok((cboard, cpos, _)) = searchrun::open(p.fen, &h) else { continue };
+            if cpos.legal_moves().is_empty() {
+                continue;
+            }
+            for d1 in 1..=(if thorough { 3u128 } else { 2 }) {
+                for d2 in 1..=2u128 {
+                    let first = Case { fen: p.fen.to_string(), history: h.clone(), limits: Limits { depth: Some(d1), ..Default::default() }, max_depth: Some(d1 as u8), cut: Cut::ClockNever, elapsed_ms: None };
+                    let o1 = searchrun::run_within(&cboard, &first, &fresh, ALLOW);
+                    w.count("searches_child_then_parent", 1);
+                    judge(w, &first, p, &cpos, &o1, "child-first");
+                    let second = case_for(p, &Limits { depth: Some(d2), ..Default::default() }, Cut::ClockNever);
+                    let o2 = searchrun::run_within(&pboard, &second, &keep, ALLOW);
+                    w.count("searches_child_then_parent", 1);
+                    judge(w, &second, p, &ppos, &o2, &format!("after-child:{}:{d1}", m.uci()));
+                }
+            }
+        }
+    }
     let list: Vec<&SPos> = P9.iter().take(if thorough { P9.len() } else { 12 }).chain(spos::LOSING.iter()).collect();
     for chunk in list.chunks(4) {
         *idx += 1;
@@ -506,6 +555,13 @@ pub fn with_scenario(c: &Case, tag: &str) -> J {
     if let (J::Obj(v), Some(sc)) = (&mut r, scenario_of(tag)) {
         v.push(("scenario".into(), s(sc)));
     }
+    if let (J::Obj(v), Some(rest)) = (&mut r, tag.strip_prefix("after-child:")) {
+        // "after-child:<move>:<depth>": the search of the child position that came first
+        let mut it = rest.split(':');
+        let mv = it.next().unwrap_or("").to_string();
+        let d: u64 = it.next().and_then(|x| x.parse().ok()).unwrap_or(1);
+        v.push(("after_child_search".into(), obj(vec![("move", s(mv)), ("depth", i(d))])));
+    }
     r
 }
 
@@ -513,6 +569,16 @@ pub fn with_scenario(c: &Case, tag: &str) -> J {
 pub fn run_scenario(board: &crate::board::Board, case: &Case, r: &J) -> Out {
     let fresh = Opts { clear_cache: true, observe: false, neutral: false };
     let keep = Opts { clear_cache: false, observe: false, neutral: false };
+    if let Some(ch) = r.get("after_child_search") {
+        let mut h = case.history.clone();
+        h.push(ch.get("move").and_then(|x| x.str()).unwrap_or("").to_string());
+        let d = ch.get("depth").and_then(|x| x.int()).unwrap_or(1) as u128;
+        if let Ok((cb, _, _)) = searchrun::open(&case.fen, &h) {
+            let first = Case { fen: case.fen.clone(), history: h, limits: Limits { depth: Some(d), ..Default::default() }, max_depth: Some(d as u8), cut: Cut::ClockNever, elapsed_ms: None };
+            let _ = searchrun::run(&cb, &first, &fresh);
+        }
+        return searchrun::run(board, case, &keep);
+    }
     match r.get("scenario").and_then(|x| x.str()) {
         Some("crowded") => {
             fill_cache();
@@ -626,7 +692,7 @@ pub fn c14_worker(args: &Args, w: &Worker) -> i32 {
     }
     crowded_and_losing(w, thorough, &mut idx, &|w, c, p, pos, out, tag| {
         w.count("depth_limited_searches", 1);
-        report(w, c, p, pos, out, Some(c.limits.depth.unwrap_or(0) as i64), tag);
+        report(w, c, p, pos, out, c.limits.depth.map(|d| d as i64), tag);
     });
     // whole games with the cache kept across positions: stale entries of earlier searches
     selfplay(w, &args.tier, &mut idx, &|w, c, pos, out, ply| {
@@ -718,7 +784,7 @@ pub fn replay_c09(doc: &J) -> i32 {
     let mut verdicts = vec![];
     for _ in 0..2 {
         let mut v = None;
-        if r.get("scenario").is_some() {
+        if r.get("scenario").is_some() || r.get("after_child_search").is_some() {
             v = judge_go(&run_scenario(&board, &case, r), &legal);
         } else {
             for round in 0..rounds {
